@@ -48,6 +48,7 @@ git -C /repo worktree remove --force $W
 echo "== our checks against the change"
 if [ -n "$(git -C /repo status --porcelain)" ]; then echo "/repo is dirty: commit first"; exit 2; fi
 git -C /repo apply $DST/patch.diff || { echo "patch does not apply to /repo"; exit 2; }
+export VERIF_EVIDENCE_DIR=/tmp/confirm-$ID-evidence
 for c in $CHECKS; do ./check $c quick > /tmp/confirm-$ID-check-$c.txt 2>&1; echo "check $c exit=$?"; grep -E "^(VIOLATION|KNOWN|property)" /tmp/confirm-$ID-check-$c.txt | head -8; done
 git -C /repo checkout -- .
 git -C /repo status --short | head -3
